@@ -27,6 +27,8 @@ pub enum Op {
     FromTable(u64),
     Not(usize),
     NotOwned(usize),
+    NotEdgeOwned(usize),
+    EdgeRoundTrip(usize),
     Bin(BOp, usize, usize),
     Ite(usize, usize, usize),
     Quant(Quant, usize, u32),
@@ -41,6 +43,7 @@ pub enum Op {
     DropMany(u32),
     Gc,
     AddVars(u32),
+    AddNamedVars(u32),
     SetOrder(Vec<u32>, bool),
 }
 
@@ -53,6 +56,8 @@ impl Op {
             Op::FromTable(_) => "from_table",
             Op::Not(_) => "not",
             Op::NotOwned(_) => "not_owned",
+            Op::NotEdgeOwned(_) => "not_edge_owned",
+            Op::EdgeRoundTrip(_) => "into_edge/from_edge",
             Op::Bin(op, ..) => op.name(),
             Op::Ite(..) => "ite",
             Op::Quant(Quant::Exists, ..) => "exists",
@@ -72,6 +77,7 @@ impl Op {
             Op::DropMany(_) => "drop_many",
             Op::Gc => "gc",
             Op::AddVars(_) => "add_vars",
+            Op::AddNamedVars(_) => "add_named_vars",
             Op::SetOrder(_, false) => "set_var_order",
             Op::SetOrder(_, true) => "set_var_order_seq",
         }
@@ -125,7 +131,8 @@ pub fn gen_op(rng: &mut Rng, n: u32, live: usize, has_quant: bool, p: &Profile) 
             8..=10 => Op::NotVar(rng.below(n as u64) as u32),
             11..=15 if p.from_table && n <= 6 => Op::FromTable(rng.next()),
             16..=19 => Op::Not(h(rng)),
-            20..=21 => Op::NotOwned(h(rng)),
+            20 => Op::NotOwned(h(rng)),
+            21 => match rng.below(3) { 0 => Op::NotOwned(h(rng)), 1 => Op::NotEdgeOwned(h(rng)), _ => Op::EdgeRoundTrip(h(rng)) },
             22..=49 => Op::Bin(*rng.pick(&ALL_BOPS), h(rng), h(rng)),
             50..=57 => Op::Ite(h(rng), h(rng), h(rng)),
             58..=63 if has_quant => Op::Quant(*rng.pick(&ALL_QUANTS), h(rng), mask(rng)),
@@ -143,7 +150,9 @@ pub fn gen_op(rng: &mut Rng, n: u32, live: usize, has_quant: bool, p: &Profile) 
             81..=84 => Op::Cof(h(rng), rng.bool()),
             85..=87 if p.pick_cube => Op::PickCubeDd(h(rng), rng.next() as u32),
             88..=92 => Op::Clone(h(rng)),
-            93..=94 if p.add_vars && n < p.max_vars => Op::AddVars(rng.range(1, 2) as u32),
+            93..=94 if p.add_vars && n < p.max_vars => {
+                if rng.bool() { Op::AddVars(rng.range(1, 2) as u32) } else { Op::AddNamedVars(rng.range(1, 2) as u32) }
+            }
             95..=99 if p.reorder && n >= 2 => {
                 let mut o = rng.perm(n as usize);
                 if rng.chance(1, 2) {
@@ -184,6 +193,12 @@ pub struct World<K: BoolKind> {
     pub seq_only: bool,
     /// expected OutOfMemory is fine (C14 sweeps); otherwise OOM is reported
     pub oom_ok: bool,
+    /// the manager's background collector may run (capacity >= 100)
+    pub bg_gc: bool,
+    pub name_counter: u32,
+    pub explicit_gcs: u64,
+    /// when Some: per produced handle (table hash, node_count, index of first equal live handle)
+    pub digest: Option<Vec<(u64, usize, usize)>>,
 }
 
 pub fn hash_of<T: Hash>(t: &T) -> u64 {
@@ -199,7 +214,7 @@ where
 {
     pub fn new(nodes: usize, cache: usize, threads: u32, nvars: u32, label: String) -> Self {
         let mref = setup::<K>(nodes, cache, threads, nvars);
-        World { mref, n: nvars, hs: Vec::new(), trace: Vec::new(), label, ooms: 0, steps: 0, seq_only: false, oom_ok: false }
+        World { mref, n: nvars, hs: Vec::new(), trace: Vec::new(), label, ooms: 0, steps: 0, seq_only: false, oom_ok: false, bg_gc: nodes >= 100, name_counter: 0, explicit_gcs: 0, digest: None }
     }
 
     pub fn sig(&self, clause: &str) -> String {
@@ -256,7 +271,7 @@ where
         let n = self.n;
         let needs_handle = !matches!(
             op,
-            Op::Const(_) | Op::Var(_) | Op::NotVar(_) | Op::FromTable(_) | Op::Gc | Op::AddVars(_) | Op::SetOrder(..) | Op::DropMany(_)
+            Op::Const(_) | Op::Var(_) | Op::NotVar(_) | Op::FromTable(_) | Op::Gc | Op::AddVars(_) | Op::AddNamedVars(_) | Op::SetOrder(..) | Op::DropMany(_)
         );
         if needs_handle && self.hs.is_empty() {
             return;
@@ -283,15 +298,7 @@ where
                     return;
                 }
                 let t = Tt::from_u64(n, *bits);
-                // guard against OOM panics inside the helper: only with ample capacity
-                let r = crate::ctx::catch(|| build_shannon::<K>(&self.mref, &t));
-                match r {
-                    Ok(f) => produced = Some((Ok(f), t)),
-                    Err(_) => {
-                        self.ooms += 1;
-                        return;
-                    }
-                }
+                produced = Some((try_build_shannon::<K>(&self.mref, &t), t));
             }
             Op::Not(i) => {
                 let e = &self.hs[self.idx(*i)];
@@ -300,6 +307,23 @@ where
             Op::NotOwned(i) => {
                 let e = &self.hs[self.idx(*i)];
                 produced = Some((e.f.clone().not_owned(), e.t.not()));
+            }
+            Op::NotEdgeOwned(i) => {
+                let e = &self.hs[self.idx(*i)];
+                let r = e.f.with_manager_shared(|m, edge| {
+                    let owned = m.clone_edge(edge);
+                    K::F::not_edge_owned(m, owned).map(|r| K::F::from_edge(m, r))
+                });
+                produced = Some((r, e.t.not()));
+            }
+            Op::EdgeRoundTrip(i) => {
+                let e = &self.hs[self.idx(*i)];
+                let f2 = e.f.clone();
+                let r = self.mref.with_manager_shared(|m| {
+                    let edge = f2.into_edge(m);
+                    K::F::from_edge(m, edge)
+                });
+                produced = Some((Ok(r), e.t.clone()));
             }
             Op::Bin(bop, i, j) => {
                 let (a, b) = (&self.hs[self.idx(*i)], &self.hs[self.idx(*j)]);
@@ -440,9 +464,22 @@ where
                 }
             }
             Op::Gc => self.gc(ctx),
-            Op::AddVars(k) => {
+            Op::AddVars(k) | Op::AddNamedVars(k) => {
                 let k = *k;
-                let r = self.mref.with_manager_exclusive(|m| m.add_vars(k));
+                let r = if matches!(op, Op::AddVars(_)) {
+                    self.mref.with_manager_exclusive(|m| m.add_vars(k))
+                } else {
+                    let names: Vec<String> = (0..k).map(|i| format!("v{}_{}", self.name_counter, i)).collect();
+                    self.name_counter += 1;
+                    let r = self.mref.with_manager_exclusive(|m| m.add_named_vars(names.clone()).expect("fresh names"));
+                    self.mref.with_manager_shared(|m| {
+                        for (i, nm) in names.iter().enumerate() {
+                            let v = n + i as u32;
+                            ctx.check(m.var_name(v) == nm && m.name_to_var(nm) == Some(v), &format!("{}:add_named_vars:name-lookup", K::NAME), || format!("var {v} name {nm}"));
+                        }
+                    });
+                    r
+                };
                 ctx.check(r == (n..n + k), &self.sig("add_vars:range"), || format!("{r:?}"));
                 self.n += k;
                 let n2 = self.n;
@@ -528,6 +565,12 @@ where
                 ctx.violation(&self.sig("canonicity:hash-ord-inconsistent"), w);
             }
         }
+        if self.digest.is_some() {
+            let nc = f.node_count();
+            let first_eq = self.hs.iter().position(|e| e.f == f).unwrap_or(usize::MAX);
+            let th = hash_of(&interp_tt::<K>(&f));
+            self.digest.as_mut().unwrap().push((th, nc, first_eq));
+        }
         self.hs.push(Entry { f, t: model });
     }
 
@@ -573,9 +616,11 @@ where
         ext
     }
 
+    /// Snapshot of the stored diagram. Taken under the *exclusive* manager lock: OxiDD's
+    /// background collector only holds the shared lock, so this is a quiescent point.
     pub fn structure(&self) -> audit::Structure {
-        self.mref.with_manager_shared(|m| {
-            audit::structural(m, K::rule(), &|t| K::SEM == Sem::ZeroSup && !K::term(t))
+        self.mref.with_manager_exclusive(|m| {
+            audit::structural(&*m, K::rule(), &|t| K::SEM == Sem::ZeroSup && !K::term(t))
         })
     }
 
@@ -611,19 +656,34 @@ where
     }
 
     pub fn gc(&mut self, ctx: &mut Ctx) {
-        let before = self.mref.with_manager_shared(|m| m.num_inner_nodes());
-        let collected = self.mref.with_manager_shared(|m| m.gc());
-        let s = self.audit(ctx, "after gc");
+        let before = self.mref.with_manager_exclusive(|m| m.num_inner_nodes());
+        let mut collected = self.mref.with_manager_shared(|m| m.gc());
+        self.explicit_gcs += 1;
+        let mut s = self.audit(ctx, "after gc");
         ctx.count("gcs", 1);
+        // exactly the reachable nodes remain
+        let mut ext = self.external_refs(&s);
+        let mut reach = audit::reachable(&s, ext.keys().copied());
+        if self.bg_gc {
+            // gc() returns 0 without collecting while the background collector is at work:
+            // retry (bounded) before judging
+            let mut tries = 0;
+            while reach.len() != s.nodes && tries < 200 {
+                std::thread::sleep(std::time::Duration::from_millis(1));
+                collected += self.mref.with_manager_shared(|m| m.gc());
+                self.explicit_gcs += 1;
+                s = self.structure();
+                ext = self.external_refs(&s);
+                reach = audit::reachable(&s, ext.keys().copied());
+                tries += 1;
+            }
+        }
         let after = s.nodes;
         ctx.eval();
-        if before < after || collected != before - after {
+        if !self.bg_gc && (before < after || collected != before - after) {
             let w = self.witness(&format!("gc() returned {collected}, nodes before {before} after {after}"));
             ctx.violation(&self.sig("gc:return-value"), w);
         }
-        // exactly the reachable nodes remain
-        let ext = self.external_refs(&s);
-        let reach = audit::reachable(&s, ext.keys().copied());
         ctx.eval();
         if reach.len() != after {
             let w = self.witness(&format!("after gc {after} nodes stored but {} reachable from live handles", reach.len()));
@@ -634,10 +694,29 @@ where
         }
     }
 
+    /// number of collections that were not requested by the harness (background collector)
+    pub fn background_gcs(&self) -> u64 {
+        let (gc, reo) = self.mref.with_manager_shared(|m| (m.gc_count(), m.reorder_count()));
+        gc.saturating_sub(self.explicit_gcs + reo)
+    }
+
     /// Drop everything, collect, and require the initial node count
     pub fn teardown(&mut self, ctx: &mut Ctx) {
         self.hs.clear();
         let _ = self.mref.with_manager_shared(|m| m.gc());
+        self.explicit_gcs += 1;
+        if self.bg_gc {
+            // a background collection may have been in progress (gc() then returns 0 at once)
+            for _ in 0..200 {
+                let want = if K::SEM == Sem::ZeroSup { self.n as usize } else { 0 };
+                if self.mref.with_manager_exclusive(|m| m.num_inner_nodes()) == want {
+                    break;
+                }
+                std::thread::sleep(std::time::Duration::from_millis(1));
+                let _ = self.mref.with_manager_shared(|m| m.gc());
+                self.explicit_gcs += 1;
+            }
+        }
         let left = self.mref.with_manager_shared(|m| m.num_inner_nodes());
         let want = if K::SEM == Sem::ZeroSup { self.n as usize } else { 0 };
         ctx.eval();
